@@ -130,6 +130,20 @@ def interrupted_runs(ctx):
                     probs.append(f"{label}: chain file of {a} is {'missing' if c is None else 'not well-formed'}")
                 elif c[: len(st["chain"])] != st["chain"]:
                     probs.append(f"{label}: earlier chain entries of {a} changed")
+        # whatever the chain files list now - in every history the run touched - names a manifest that is there, with
+        # the recorded digest (an entry without its file is a gap; an interrupted run appends at most one entry)
+        for a, st in cur.items():
+            c = st.get("chain")
+            if not isinstance(c, list):
+                continue
+            if len(c) > len((pre.get(a) or {}).get("chain") or []) + 1:
+                probs.append(f"{label}: chain of {a} grew by more than one entry")
+            for e in c:
+                b = st["manifests"].get(e.get("path"))
+                if b is None:
+                    probs.append(f"{label}: chain of {a} lists {e.get('path')}, which is not in the folder (any more)")
+                elif e.get("fmt") == "c4" and rt.c4_of_bytes(b) != e.get("digest"):
+                    probs.append(f"{label}: chain of {a} lists {e.get('path')} with a digest that is not the digest of its bytes")
         return probs
 
     fails = []
